@@ -192,3 +192,70 @@ func vfC12_EvictRace() {
 	vfAssert(vfNetOpen() == 0 && vfLiveGoroutines() == 0, "stop releases everything")
 	vfReach("end")
 }
+
+// vfC11_NATSessions: the NAT relay with the SOCKS5 UDP server protocol.  Two clients address two
+// different targets; a third sender emits a datagram that does not parse.  Each datagram leaves
+// towards the target it names, from its own session's socket; each reply returns to the client
+// that owns the session, with the target as its source; the unparsable datagram creates no
+// session, socket or goroutine.
+//   cases: preempt
+func vfC11_NATSessions() {
+	vfClock(1000, 0)
+	t1, t2 := vfNetSocket(), vfNetSocket()
+	c1, c2, junk := vfNetSocket(), vfNetSocket(), vfNetSocket()
+	client := direct.NewDirectUDPClient("out", "ip4", 1500, conn.ListenConfig{})
+	rcfg := router.Config{DefaultUDPClientName: "out"}
+	r, err := rcfg.Router(zap.NewNop(), nil, map[string]dns.SimpleResolver{}, map[string]netio.StreamClient{}, map[string]zerocopy.UDPClient{"out": client}, map[string]int{"s": 0})
+	vfAssert(err == nil, "router")
+	server := direct.Socks5UDPNATServer{}
+	recvSize := zerocopy.MaxPacketSizeForAddr(1500, netip.IPv4Unspecified())
+	head := zerocopy.UDPRelayHeadroom(zerocopy.Headroom{}, server.Info().UnpackerHeadroom)
+	lnc := udpRelayServerConn{network: "udp4", address: "127.0.0.1:0", batchMode: "no", sendChannelCapacity: 64, natTimeout: time.Hour}
+	relay := NewUDPNATRelay("s", 0, 1500, head.Front, recvSize, head.Front+recvSize+head.Rear, []udpRelayServerConn{lnc}, server, stats.NewServerCollector(), r, zap.NewNop())
+	vfAssert(relay.Start(context.Background()) == nil, "relay starts")
+	port := uint16(relay.listeners[0].serverConn.LocalAddr().(*net.UDPAddr).Port)
+	vfSchedule(vfCase("preempt"))
+
+	// SOCKS5 UDP request: RSV RSV FRAG ATYP=1 addr port payload
+	pkt := func(targetPort uint16, payload []byte) []byte {
+		return append([]byte{0, 0, 0, 1, 127, 0, 0, 1, byte(targetPort >> 8), byte(targetPort)}, payload...)
+	}
+	p1, p2 := vfBytes("p1", 5), vfBytes("p2", 5)
+	x := vfInt("x")
+	vfAssume(x >= 0 && x < 5)
+	vfNetSend(junk, port, []byte{0, 0, 1, 9, 9}) // fragmented / unknown address type: refused
+	vfNetSend(c1, port, pkt(vfNetPort(t1), p1))
+	vfNetSend(c2, port, pkt(vfNetPort(t2), p2))
+	buf := make([]byte, 64)
+	n, nat1, ok := vfNetRecv(t1, buf)
+	vfAssert(ok && n == 5 && buf[x] == p1[x], "client 1's datagram reaches the target it names")
+	n, nat2, ok := vfNetRecv(t2, buf)
+	vfAssert(ok && n == 5 && buf[x] == p2[x], "client 2's datagram reaches the target it names")
+	vfAssert(nat1 != nat2, "each session has its own socket")
+	_, _, more := vfNetRecv(t1, buf)
+	vfAssert(!more, "nothing else reaches target 1")
+	vfQuiesce()
+	relay.mu.Lock()
+	sessions := len(relay.table)
+	relay.mu.Unlock()
+	vfAssert(sessions == 2 && vfNetOpen() == 3, "the unparsable datagram created no session and no socket")
+
+	// replies
+	r1, r2 := vfBytes("r1", 4), vfBytes("r2", 4)
+	vfNetSend(t2, nat2, r2)
+	vfNetSend(t1, nat1, r1)
+	n, from, ok := vfNetRecv(c1, buf)
+	vfAssert(ok && from == port && n == 10+4, "client 1 gets a reply")
+	vfAssert(buf[3] == 1 && uint16(buf[8])<<8|uint16(buf[9]) == vfNetPort(t1), "with target 1 as its source")
+	vfAssert(buf[10+x%4] == r1[x%4], "and target 1's payload")
+	n, _, ok = vfNetRecv(c2, buf)
+	vfAssert(ok && n == 10+4 && uint16(buf[8])<<8|uint16(buf[9]) == vfNetPort(t2) && buf[10+x%4] == r2[x%4], "client 2 gets target 2's reply")
+	_, _, more = vfNetRecv(c1, buf)
+	vfAssert(!more, "no reply is delivered to the other client")
+	_, _, more = vfNetRecv(junk, buf)
+	vfAssert(!more, "the sender of the unparsable datagram gets nothing")
+	vfAssert(relay.Stop() == nil, "stop")
+	vfQuiesce()
+	vfAssert(vfNetOpen() == 0 && vfLiveGoroutines() == 0, "stop releases everything")
+	vfReach("end")
+}
